@@ -1,7 +1,7 @@
 """C09 — the independent-atom potential is additive and slicing conserves it.
 
 Spaces:
- A  additivity   ALL 2-partitions of the atom sets A1, A2, A3' (4 mixed atoms) x both projections: V(A u B) = V(A) + V(B).
+ A  additivity   ALL 2-partitions of the atom sets A1, A2, 4 mixed atoms, an atomic column, NaCl + LiF (widest species is not the heaviest) x both projections: V(A u B) = V(A) + V(B).
  S  slicing      atoms with z in {0, every cumulative slice boundary exactly, boundary +- 1e-9, top - 1e-11, mid-slice} x slice
                  thickness in {H, 2, 1, 0.5, (1.5, 2.5), (0.3, 3.7)} x cell heights {2, 4, 7.3}:
                  - infinite projection: project() (sum over slices) does not depend on the slicing;
@@ -16,7 +16,7 @@ import numpy as np
 META = dict(
     engines=["product"],
     technique="exhaustive enumeration of all 2-partitions of atom sets and of boundary z-positions x slicings x cell heights; invariants checked on every slice",
-    text="Every 2-partition of three atom sets is built separately and together (both projections) and compared; single atoms are placed at z = 0, at "
+    text="Every 2-partition of five atom sets (one in which the widest species is not the heaviest) is built separately and together (both projections) and compared; single atoms are placed at z = 0, at "
          "every slice boundary exactly and 1e-9 beside it, just below the top and mid-slice, for 6 slicings and 3 cell heights, and the slice "
          "assignment (by tag), the boundary rule, the thickness sum, the per-slice potential and the slicing-invariance of the projected "
          "potential are checked.",
@@ -32,7 +32,9 @@ def atom_sets():
     mixed = ase.Atoms("CSiAuC", positions=[(0.4, 0.4, 0.3), (2.0, 1.5, 1.9), (3.1, 2.2, 2.6), (1.2, 2.7, 3.8)], cell=(4, 3, 4), pbc=True)
     # an atomic column: same-element atoms on top of each other (they share pixels inside one slice) + one other element
     column = ase.Atoms("C3Si", positions=[(1.3, 1.1, 0.6), (1.3, 1.1, 1.4), (1.3, 1.1, 3.1), (1.35, 1.12, 1.0)], cell=(4, 3, 4), pbc=True)
-    return {"A1": U.atoms("A1"), "A2": U.atoms("A2"), "mixed4": mixed, "column4": column}
+    # light, WIDE atoms next to heavier, narrower ones (cutoff radius Na 6.6 > Cl 3.7, Li 6.2 > F 2.9 A): the widest species is not the heaviest
+    salt = ase.Atoms("NaClLiF", positions=[(0.4, 0.4, 0.3), (2.4, 1.9, 2.3), (3.1, 0.7, 2.6), (1.2, 2.7, 3.8)], cell=(4, 3, 4), pbc=True)
+    return {"A1": U.atoms("A1"), "A2": U.atoms("A2"), "mixed4": mixed, "column4": column, "salt4": salt}
 
 
 THICK = ["H", 2.0, 1.0, 0.5, [1.5, 2.5], [0.3, 3.7]]
@@ -40,7 +42,7 @@ THICK = ["H", 2.0, 1.0, 0.5, [1.5, 2.5], [0.3, 3.7]]
 
 def check(ctx):
     A = []
-    for name, n in (("A1", 2), ("A2", 3), ("mixed4", 4), ("column4", 4)):
+    for name, n in (("A1", 2), ("A2", 3), ("mixed4", 4), ("column4", 4), ("salt4", 4)):
         for mask in range(1, 2 ** n - 1):
             if mask < (2 ** n - 1 - mask):  # unordered partitions
                 for proj in ("infinite", "finite"):
